@@ -48,6 +48,7 @@ type probe struct {
 	ShellsHung  []string     `json:"shells_hung"`  // shells that had to be killed
 	Incomplete  string       `json:"incomplete"`   // non-empty: log unusable (reason)
 	WaitTimeout bool         `json:"wait_timeout"` // some pause point ran into the 20 s cap of waitfile
+	ProbeAt     int          `json:"probe_at"`     // number of log lines that existed BEFORE the probes were taken
 }
 
 func readLog(path string) ([]ev, error) {
@@ -327,11 +328,19 @@ func runScen(cd *caseDir, s *scen) ([]ev, *probe, error) {
 		time.Sleep(5 * time.Millisecond)
 		evs, _ = readLog(cd.log)
 	}
-	// Final probes, in this order: socket inode, liveness, and only then the
-	// log. A daemon announces its exit (serve.beforeRemoveSocket) BEFORE it
-	// removes its socket, so whatever a probe may have seen of an exit that
-	// was under way is announced in the log that is read afterwards; a daemon
-	// that is "alive" without such a line had not decided to stop when probed.
+	// Final probes are bracketed by two reads of the (append-only) log:
+	//   lines [0, ProbeAt) existed before the probes — a daemon whose
+	//   afterListen is among them had bound its socket before the probe;
+	//   the log read after the probes contains every exit announcement
+	//   (serve.beforeRemoveSocket is written BEFORE the socket is removed)
+	//   of an exit that a probe may have seen.
+	// Only a daemon that listened before the first read and has not announced
+	// an exit in the second read is judged by the probes.
+	evs, err = readLog(cd.log)
+	if err != nil {
+		return evs, pr, err
+	}
+	pr.ProbeAt = len(evs)
 	pr.SockIno = inoAt(cd.sock)
 	for _, pid := range daemonPids(evs) {
 		pr.Alive[pid] = running(pid)
